@@ -21,10 +21,12 @@ package eval
 //@   requires wfP(p) && ctx != nil
 //@   ensures wfP(p)
 //@   eosexit
+//@   inline 8 2
 
 //@ func (*ti/eval.Class).Evaluation
 //@   requires wfP(p)
 //@   eosexit
+//@   inline 8 2
 //@   witness site:mapwrite.0#0 "class P\nend\nclass Q\nend\nmodule M\n  class B < P\n  end\nend\nclass B < Q\nend\n" args "--extends --class=B" expect "Object\nObject\n"
 //@   mapwrite[C27] base.ClassInheritanceMap key.Frame == nextFrame && key.Class == class && !key.IsInclude && !key.IsExtend
 //@   callsite[C27] SetClassMethodT a_frame == nextFrame && a_class == class
@@ -35,112 +37,138 @@ package eval
 //@ func (*ti/eval.Case).Evaluation
 //@   requires wfP(p)
 //@   eosexit
+//@   inline 8 2
 
 //@ func (*ti/eval.Comma).Evaluation
 //@   requires wfP(p)
 //@   eosexit
+//@   inline 8 2
 
 //@ func (*ti/eval.Def).evaluationBody
 //@   requires wfP(p)
 //@   eosexit
+//@   inline 8 2
 
 //@ func (*ti/eval.Def).makeDefineArgVariables
 //@   requires wfP(p)
 //@   eosexit
+//@   inline 8 2
 //@   witness eos:loop0#3 "def f(a"
 
 //@ func (*ti/eval.Do).Evaluation
 //@   requires wfP(p)
 //@   eosexit
+//@   inline 8 2
 
 //@ func (*ti/eval.Do).collectBlockVariables
 //@   requires wfP(p)
 //@   eosexit
+//@   inline 8 2
 //@   witness eos:loop0#1 "[1].each do |x"
 
 //@ func (*ti/eval.Evaluator).EvalExpr
 //@   requires wfP(p)
 //@   eosexit
+//@   inline 8 2
 
 //@ func (*ti/eval.Evaluator).EvalToTargetToken
 //@   requires wfP(p)
 //@   eosexit
+//@   inline 8 2
 
 //@ func (*ti/eval.Evaluator).arrayReferenceEvaluation
 //@   requires wfP(p)
 //@   eosexit
+//@   inline 8 2
 //@   witness eos:loop0#0 "a = [1]\na[0"
 
 //@ func (*ti/eval.Evaluator).generalReferenceEvaluation
 //@   requires wfP(p)
 //@   eosexit
+//@   inline 8 2
 //@   witness eos:loop0#0 "class Foo\n  def [](i)\n    1\n  end\nend\nf = Foo.new\nf[0"
 
 //@ func (*ti/eval.Evaluator).integerReferenceEvaluation
 //@   requires wfP(p)
 //@   eosexit
+//@   inline 8 2
 //@   witness eos:loop0#0 "x = 1\nx[0"
 
 //@ func (*ti/eval.Evaluator).makeArray
 //@   requires wfP(p)
 //@   eosexit
+//@   inline 8 2
 
 //@ func (*ti/eval.Evaluator).stringReferenceEvaluation
 //@   requires wfP(p)
 //@   eosexit
+//@   inline 8 2
 //@   witness eos:loop0#0 "s = \"a\"\ns[0"
 
 //@ func (*ti/eval.Exclamation).Evaluation
 //@   requires wfP(p)
 //@   eosexit
+//@   inline 8 2
 
 //@ func (*ti/eval.Hash).Evaluation
 //@   requires wfP(p)
 //@   eosexit
+//@   inline 8 2
 
 //@ func (*ti/eval.IfUnless).Evaluation
 //@   requires wfP(p)
 //@   eosexit
+//@   inline 8 2
 
 //@ func (*ti/eval.In).Evaluation
 //@   requires wfP(p)
 //@   eosexit
+//@   inline 8 2
 
 //@ func (*ti/eval.In).parseArray
 //@   requires wfP(p)
 //@   eosexit
+//@   inline 8 2
 
 //@ func (*ti/eval.In).parseHash
 //@   requires wfP(p)
 //@   eosexit
+//@   inline 8 2
 
 //@ func (*ti/eval.In).parseParentheses
 //@   requires wfP(p)
 //@   eosexit
+//@   inline 8 2
 //@   witness eos:loop0#0 "case 1\nin ("
 
 //@ func (*ti/eval.Module).Evaluation
 //@   requires wfP(p)
 //@   eosexit
+//@   inline 8 2
 
 //@ func (*ti/eval.Module).classIdentifierProcessing
 //@   requires wfP(p)
 //@   eosexit
+//@   inline 8 2
 //@   witness eos:loop0#0 "module M\n  class << self\n"
 
 //@ func (*ti/eval.Rescue).Evaluation
 //@   requires wfP(p)
 //@   eosexit
+//@   inline 8 2
 
 //@ func (*ti/eval.While).Evaluation
 //@   requires wfP(p)
 //@   eosexit
+//@   inline 8 2
 //@   witness eos:loop0#1 "for x"
 
 //@ func ti/eval.evalHereDocument
 //@   requires wfP(p)
 //@   eosexit
+//@   inline 8 2
 
 //@ func ti/eval.skipMultilineComment
 //@   requires wfP(p)
 //@   eosexit
+//@   inline 8 2
